@@ -38,6 +38,12 @@ SWEEP_FRACS = [0.0, 0.5, 0.999]
 MAX_SWEEP_PASSES = {"docutils": 400, "sphinx": 160}
 
 
+SUPPRESSIBLE = ["myst", "myst.html", "myst.topmatter", "myst.directive_option", "myst.directive_parse",
+                "myst.directive_unknown", "myst.role_unknown", "myst.substitution", "myst.inv_retrieval",
+                "myst.xref_missing", "myst.header", "myst.not_supported", "myst.strikethrough", "myst.iref_missing",
+                "myst.attribute", "myst.duplicate_def", "myst.directive_comments", "docutils"]
+
+
 def kinds_for(op: str) -> list[dict]:
     """Every applicable single fault for one seam call (the sweep's fault alphabet)."""
     out: list[dict] = []
@@ -126,6 +132,8 @@ class Engine:
         files = proj["files"]
         cfg = proj["cfg"]
         cfg.pop("inventories", None)
+        if g.random() < 0.3:  # swarm: every recovery mechanism also has a "warning suppressed" branch
+            cfg["suppress_warnings"] = sorted(g.sample(SUPPRESSIBLE, k=g.choice([1, 1, 2, 4])))
         hazards = gh.apply(g, proj, front_end, g.choice([0, 1, 1, 2, 3]))
         urls: dict = {}
         inv_hazards: list = []
@@ -272,6 +280,11 @@ class Engine:
                     if d["kind"] not in ERROR_KINDS or d["op"] not in ("open", "urlopen"):
                         continue
                     if d["site"].startswith("inventory.py") and suppressed_inv:
+                        count("i4_skipped_suppressed")
+                        continue
+                    if fe == "sphinx" and "docutils" in (plan["cfg"].get("suppress_warnings") or []):
+                        # include errors are docutils system messages, which Sphinx logs with type "docutils":
+                        # the configuration asked for them not to be shown
                         count("i4_skipped_suppressed")
                         continue
                     if not d.get("recorded_ok"):
@@ -558,6 +571,8 @@ def _pass(plan, root, faults, observe_only):
             else:
                 conf = {f"myst_{k}": v for k, v in cfg.items()
                         if k not in ("suppress_warnings", "highlight_code_blocks", "inventories")}
+                if cfg.get("suppress_warnings"):
+                    conf["suppress_warnings"] = list(cfg["suppress_warnings"])  # Sphinx's own setting
                 r = sut.sphinx_build(root, "pass", root, conf, builder=plan["builder"], observe="resolved")
                 if r[0] == "exc":
                     status, exc = "exc", r[1]
